@@ -49,6 +49,10 @@ ASSUMPTIONS = [
     "not sample it above 33)",
     "the correspondence carries the MODEL state through the history (Cases/CmpC13.v hist_ok): the trace of every call is "
     "replayed from the values the model has reached, never from the centres read back from the objects",
+    "leaving through a corner: theorem C13_fr_last_step_corner (a last step past both borders ends exactly on the corner) "
+    "is about the unclamped target recomputed in exact arithmetic from the recorded displacement and norm; the exit stream "
+    "is generated so that such steps happen (counted in coverage.steps_past_the_die from the recorded trace in binary64), "
+    "the oracle stays 'every returned centre in [0,W]x[0,H]' and the replay stays the model's step on the recorded forces",
 ]
 
 KAPPAS = [i / 10 for i in range(4, 16)]
@@ -1057,7 +1061,7 @@ def run(ctx, out, replay=None):
     quick = ctx.quick()
     n_single, n_tie, n_big, n_long, n_hist = (52, 4, 3, 1, 44) if quick else (700, 40, 24, 4, 500)
     n_longo = 24 if quick else 120
-    n_exit = 24 if quick else 320
+    n_exit = 24 if quick else 240
     out.rule = ("dies k/4 (25% decimal k/10), 1-7 modules mixing soft / hard / fixed (rectangles in separate die cells) / "
                 "terminal with, without and with fixed centre, in any order; centres inside, on the border, in the corners, "
                 "at the die centre, coincident, 12% all on one vertical/horizontal line; 20% equal areas; names M0.. or "
@@ -1070,6 +1074,15 @@ def run(ctx, out, replay=None):
                 "force_algorithm), plus TIES (two discs tangent from outside / inside, chord through a centre 3-4-5, "
                 "centre on the other border, concentric; areas pi r^2; 0-2 iterations) and MANY modules (9-11, 15-17, "
                 "32-33: names M1/M10/M11). "
+                "EXITS (own generator): a movable module driven out of the die in the LAST iteration, through each of the four "
+                "corners (both coordinates overshoot in the same step; 3 in 4) or one of the four borders: pull = zero-area "
+                "terminals / small soft modules tied by nets of weight 10..1000 to a fixed terminal exactly on the corner, "
+                "beside it on a border, on both borders next to it, or to a movable terminal / module there, started at the "
+                "distance a fully pulled module covers in max_iter-1 .. max_iter iterations, along 3-4-5-like directions; "
+                "push = 2-3 big soft modules a small fraction of the last step apart next to the corner, several times "
+                "further from the borders than from each other; square, long and tall dies; max_iter 1, 2, 3 (a few 4, 5, "
+                "8), kappa also 0.01 and 10; 1 in 12 force_algorithm, 1 in 7 the same call twice; coverage.steps_past_the_die "
+                "counts the runs whose last iteration really steps past two borders. "
                 "HISTORIES on one Die/Netlist object graph (about 40% of the cases): prep (create_squares | "
                 "create_initial_allocation | deepcopy | new Die on the same netlist, maybe a centre written by the caller, "
                 "then a call), again (a call, 0-2 caller steps, a second call - 55% with the very same arguments - maybe a "
